@@ -1298,6 +1298,16 @@ class HasTraits(CHasTraits, metaclass=MetaHasTraits):
         # Save all traits which do not have any 'transient' metadata:
         result = self.trait_get(transient=is_none)
 
+        # ... and the ordinary traits that are explicitly marked with
+        # 'transient = False' (delegates are handled below, events hold no
+        # value):
+        result.update(
+            self.trait_get(
+                transient=lambda value: value is False,
+                type=lambda value: value not in ("delegate", "event"),
+            )
+        )
+
         # Add all delegate traits that explicitly have 'transient = False'
         # metadata:
         dic = self.__dict__
